@@ -619,10 +619,10 @@ fn check_batch(ch: &Children, cases: &[Case], probe: &mut Probe) -> Result<(), S
 
 /// Shrinking a failing case costs 3 process starts per candidate and the failure is
 /// probabilistic (two hash seeds can give the same order), so it is bounded: after the first
-/// failure of a fresh case at most SHRINK_BUDGET further candidates are evaluated, the rest
+/// failure of a fresh case at most SHRINK_BUDGET further candidates (each a whole batch) are evaluated, the rest
 /// are not explored (reported as passing to proptest, which then stops at the smallest
 /// failing case found so far). Replay files never start or consume the budget.
-const SHRINK_BUDGET: usize = 160;
+const SHRINK_BUDGET: usize = 80;
 static FAILED: std::sync::atomic::AtomicBool = std::sync::atomic::AtomicBool::new(false);
 static AFTER_FAILURE: std::sync::atomic::AtomicUsize = std::sync::atomic::AtomicUsize::new(0);
 
